@@ -385,3 +385,24 @@ Proof.
   assert (Hn : negb (Z.eqb rc_deps 0) = true) by (apply negb_true_iff, Z.eqb_neq; exact Hrc).
   now rewrite Hn.
 Qed.
+
+(* ------------------------------------------------------------ C07 (serial part): at most once per run *)
+(* a row that was built (changed) or verified (checked) in this run and carries
+   no failure mark is clean for every further request of this run: no script
+   is started for it again, whatever its dependencies look like now *)
+Lemma start_dealt_with_this_run rec fuel e t w chg :
+  let '(d0, f) := from_name (dbs w) t in
+  let r := load (e_runid e) d0 f in
+  r_failed r = None -> r_changed r = Some chg -> (chg <= e_runid e)%Z ->
+  (is_checked (e_runid e) r || is_changed (e_runid e) r) = true ->
+  start rec (S fuel) e MIfChange t w =
+    Ret (set_db w d0, if r_gen r then [EvUnchanged t] else [], 0%Z, false).
+Proof.
+  destruct (from_name (dbs w) t) as [d0 f] eqn:Ef. cbv zeta. intros Hf Hc Hle Hd.
+  unfold start. rewrite Ef. cbv zeta. cbn [dbs set_db].
+  assert (Hnf : is_failed (e_runid e) (load (e_runid e) d0 f) = false) by (unfold is_failed; now rewrite Hf).
+  rewrite Hnf. cbn [is_dirty existsb]. rewrite Hf, Hc.
+  assert (Hlt : Z.ltb (e_runid e) chg = false) by (apply Z.ltb_ge; exact Hle).
+  rewrite Hlt. cbn [chk_is_checked]. rewrite Hd. cbn [app dbs set_db]. reflexivity.
+Qed.
+
